@@ -115,6 +115,31 @@ def gen_texts(ctx):
         add("let x: " + "Sequence<" * depth + "int" + ">" * depth + " = [];", "nesting")
         add("let x = 1" + " + 1" * (depth * 8) + ";", "nesting")
         add("let x = f" + "(1)" * depth + ";", "nesting")
+        add("let x = " + "(" * depth + "1" + ",)" * depth + ";", "nesting")                 # nested one-element tuples
+        add("let x = " + "(" * depth + "1" + ", 2)" * depth + ";", "nesting")
+        add("let x = " + "(1, " * depth + "2" + ")" * depth + ";", "nesting")
+        add("let x = " + "()->{" * depth + "1" + "}" * depth + ";", "nesting")
+        add("let x = " + "[(" * depth + "1" + ",)]" * depth + ";", "nesting")
+        add("let x: " + "(" * depth + "int" + ")" * depth + " = 1;", "nesting")
+        add("let x: " + "()->(" * depth + "int" + ")" * depth + " = 1;", "nesting")
+        add("let x = " + "some(" * depth + "1" + ")" * depth + ";", "nesting")
+        add("let x = 1" + ".add(1)" * depth + ";", "nesting")
+        add("let x = " + "f{int}" + "{int}" * (depth // 8) + "(1);", "nesting")
+    # turbofish / dynamic specialisations with auto types in and out of range
+    for name, nargs in (("add", 2), ("len", 1), ("foo_", 1), ("if", 3), ("map", 2), ("get", 2), ("to_str", 1)):
+        for spec in ("$", "int", "$, $", "int, $", "$, int", "$, $, $", "int, $, $, $", "Sequence<$>", "$, Sequence<$>", "Optional<$>, $", "($, $)", "($)->($)", "", "$,", "int int"):
+            for k in range(0, nargs + 2):
+                args = ", ".join(["1", "'a'", "[1]", "2.0"][:k])
+                add(f"fn foo_(x: Sequence<int>)->int{{ x.len() }}\nlet x = {name}{{{spec}}}({args});", "specialization")
+                add(f"let f = {name}{{{spec}}};", "specialization")
+            add(f"let x = {name}<{spec}>(1);", "specialization")
+    # several unfulfilled forward declarations: the message must not depend on hash order
+    for n in (2, 3, 5):
+        fw = "".join(f"forward fn fw{i}_(x: int)->int;\n" for i in range(n))
+        body = " + ".join(f"fw{i}_(x)" for i in range(n))
+        add(fw + f"fn user_(x: int)->int{{ {body} }}\nlet r = user_(1);\n" + "".join(f"fn fw{i}_(x: int)->int{{ x }}\n" for i in range(n)), "forward")
+        add(fw + f"fn user_(x: int)->int{{ {body} }}\nfn fw0_(x: int)->int{{ x }}\nlet r = user_(1);", "forward")
+        add(fw + f"fn fw0_(x: int)->int{{ {body.replace('fw0_(x)', '1')} }}\nlet r = fw0_(1);", "forward")
     for _ in range(ctx.pick(150, 3000)):
         g = Gen(rng, effects=True, errors=True, max_depth=rng.choice([3, 4, 5]))
         add(g.program(rng.randint(2, 10)).src(rng), "generated")
